@@ -55,9 +55,11 @@ var mNamePool = [][]string{
 	{"mem", "mem_free", "me", "memx"},
 	{"http_requests_total", "http_requests", "http"},
 	{"m", "m_x", "mm", "m:a"},
+	{"cpu", "CPU", "Cpu", "cpU"}, // names differing only in case
 }
-var mValPool = []string{"h1", "h2", "x", "y", "s1", "s2", "xa", "a", "1", "0", "h1x", "xh1", "ab", "b"}
-var mOddVals = []string{"sp ace", "ü", "a.b", "a-b", "a=b", "a|b", "a/b", "h1 ", "日本", "(x)", "a+b", "[1]", "x:y"}
+var mValPool = []string{"h1", "h2", "x", "y", "s1", "s2", "xa", "a", "1", "0", "h1x", "xh1", "ab", "b", "H1", "X", "A"}
+var mOddVals = []string{"sp ace", "ü", "a.b", "a-b", "a=b", "a|b", "a/b", "h1 ", "日本", "(x)", "a+b", "[1]", "x:y",
+	"", "", "", " ", " ", "  ", strings.Repeat("v", 300), strings.Repeat("long-", 700) + "x", strings.Repeat("long-", 700) + "y"}
 
 func isIdent(s string) bool {
 	ok, _ := regexp.MatchString(`^[a-zA-Z_:][a-zA-Z0-9_:]*$`, s)
@@ -86,7 +88,8 @@ func genMValue(r *rand.Rand, prev uint64) uint64 {
 func genTagSets(r *rand.Rand, n int, tags map[string]int) [][]mkv {
 	// half of the key families contain a key that is a suffix of another key
 	keyFam := [][]string{{"host", "st", "dc"}, {"ab", "b", "z"}, {"xhost", "host", "k"},
-		{"host", "dc", "rack"}, {"job", "instance", "env"}, {"a", "b", "c"}, {"k1", "k2", "k3"}, {"dc", "host", "zone"}}[r.Intn(8)]
+		{"host", "dc", "rack"}, {"job", "instance", "env"}, {"a", "b", "c"}, {"k1", "k2", "k3"}, {"dc", "host", "zone"},
+		{"host", "Host", "HOST"}}[r.Intn(9)] // last family: keys differing only in case
 	homogeneous := r.Intn(4) != 0 // every series carries the same keys
 	val := func() string {
 		if r.Intn(12) == 0 {
@@ -238,6 +241,53 @@ func genE2EMCase(r *rand.Rand, tags map[string]int) string {
 			s.labels = append([]mkv(nil), s.labels...)
 			s.labels[0].v = []string{`q"uote`, `back\slash`, `"`}[r.Intn(3)]
 		}
+	case 5:
+		// a tag value longer than 65535 bytes (recorded finding: length field of the tags tree file is 16 bit)
+		s := &sers[r.Intn(len(sers))]
+		if len(s.labels) > 0 {
+			s.labels = append([]mkv(nil), s.labels...)
+			s.labels[r.Intn(len(s.labels))].v = strings.Repeat("w", 65536+r.Intn(3000))
+		}
+	case 6, 7, 8, 9, 10, 11:
+		// identity with EMPTY tag values: sibling series with / without a tag whose value is "", and two series that
+		// differ only in WHICH tag is empty (the unchanged engine keeps all of them apart)
+		base := append([]mkv(nil), sers[0].labels...)
+		if len(base) == 0 {
+			base = []mkv{{"host", "web1"}}
+		}
+		ek := []string{"zone", "az", "zz", "a0"}[r.Intn(4)]
+		with := append(append([]mkv(nil), base...), mkv{ek, ""})
+		sers[0].labels = with
+		sers = append(sers, mser{name: sers[0].name, labels: base})
+		if r.Intn(2) == 0 {
+			x, y := append([]mkv(nil), base...), append([]mkv(nil), base...)
+			v := base[0].v
+			if v == "" {
+				v = "h"
+			}
+			x[0].v = v
+			y[0].v = ""
+			sers = append(sers, mser{name: sers[0].name, labels: append(x, mkv{ek + "2", ""})}, mser{name: sers[0].name, labels: append(y, mkv{ek + "2", v})})
+		}
+		if r.Intn(3) == 0 { // … and one with a single space
+			sers = append(sers, mser{name: sers[0].name, labels: append(append([]mkv(nil), base...), mkv{ek, " "})})
+		}
+	case 12, 13:
+		// a tag literally named __name__ (accepted by the ingest path: one more label of the identity), sibling without it
+		s := sers[r.Intn(len(sers))]
+		sers = append(sers, mser{name: s.name, labels: append(append([]mkv(nil), s.labels...), mkv{"__name__", []string{"other", s.name, ""}[r.Intn(3)]})})
+	}
+	// distinct label keys within a series
+	for i := range sers {
+		seen := map[string]bool{}
+		var l []mkv
+		for _, kv := range sers[i].labels {
+			if !seen[kv.k] {
+				seen[kv.k] = true
+				l = append(l, kv)
+			}
+		}
+		sers[i].labels = l
 	}
 	// remove duplicates (same name and label set)
 	{
@@ -392,7 +442,9 @@ func genE2EMCase(r *rand.Rand, tags map[string]int) string {
 		m := map[string]bool{}
 		for _, s := range sers {
 			for _, kv := range s.labels {
-				m[kv.k] = true
+				if kv.k != "__name__" { // matchers / grouping on __name__ address the metric name
+					m[kv.k] = true
+				}
 			}
 		}
 		var ks []string
@@ -863,6 +915,32 @@ func mPreimageCollision(sers []mser) bool {
 	return false
 }
 
+func mOver64k(sers []mser) bool {
+	for _, s := range sers {
+		for _, kv := range s.labels {
+			if len(kv.v) > 65535 {
+				return true
+			}
+		}
+	}
+	return false
+}
+
+// input classes of recorded findings that can make the answer depend on rotation (same names as Spec/Metrics.lean `classes`)
+func mGoClasses(sers []mser, escaped bool) []string {
+	var cl []string
+	if escaped {
+		cl = append(cl, "json-escaped-tag-value")
+	}
+	if mOver64k(sers) {
+		cl = append(cl, "tag-value-over-64k")
+	}
+	if mPreimageCollision(sers) {
+		cl = append(cl, "tsid-preimage-collision")
+	}
+	return cl
+}
+
 func execE2EM(line string) Result {
 	f := strings.Fields(line)
 	if len(f) < 4 || f[0] != "me" {
@@ -986,8 +1064,12 @@ func execE2EM(line string) Result {
 				break
 			}
 		}
+		csig := "e2em-worker/crash/" + site
+		if mOver64k(sers) { // recorded finding: the tags tree file is corrupt after rotation, readers may run out of bounds
+			csig = "e2em/in-class/tag-value-over-64k"
+		}
 		return Result{Out: fmt.Sprintf("worker-died err=%v answers=%d/%d", werr, len(resLines), 2*len(qs)),
-			Fails: []PropFail{{Sig: "e2em-worker/crash/" + site, Msg: fmt.Sprintf("metrics engine worker exited abnormally (%v) after %d of %d answers: %s at %s", werr, len(resLines), 2*len(qs), pmsg, site)}}, Nontrivial: true}
+			Fails: []PropFail{{Sig: csig, Msg: fmt.Sprintf("metrics engine worker exited abnormally (%v) after %d of %d answers: %s at %s", werr, len(resLines), 2*len(qs), pmsg, site)}}, Nontrivial: true}
 	}
 	var segs []string
 	for qi, q := range qs {
@@ -1005,13 +1087,7 @@ func execE2EM(line string) Result {
 		}
 		if a != b {
 			sig := "e2em/open-vs-rotated-differ"
-			var cl []string
-			if escaped {
-				cl = append(cl, "json-escaped-tag-value")
-			}
-			if mPreimageCollision(sers) {
-				cl = append(cl, "tsid-preimage-collision")
-			}
+			cl := mGoClasses(sers, escaped)
 			if len(cl) > 0 {
 				sig = "e2em/in-class/" + strings.Join(cl, "+")
 			}
